@@ -317,6 +317,7 @@ func (p *sp) primary() Val {
 		var binders []string
 		for _, v := range vars {
 			env2[v] = intV(v + "!q")
+			env2["$p:"+v] = Val{} // bound variables shadow program variables of the same name
 			binders = append(binders, "("+v+"!q Int)")
 		}
 		save := p.env
@@ -424,12 +425,16 @@ func (p *sp) primary() Val {
 				if len(args) != len(pf.Params) {
 					panic(specErr{"spec: arity of " + t})
 				}
+				if pf.Opaque {
+					return p.g.opaqueApp(pf, args)
+				}
 				env2 := map[string]Val{}
 				for k, v := range p.env {
 					env2[k] = v
 				}
 				for i, a := range pf.Params {
 					env2[a] = args[i]
+					env2["$p:"+a] = Val{} // parameters shadow program variables of the same name
 				}
 				q := &sp{toks: lex(pf.Body), g: p.g, st: p.st, env: env2, src: pf.Body}
 				v := q.iff()
